@@ -156,6 +156,14 @@ class Run:
             jc.append([2, im[1], im[2], c[2], c[3]]); ji.append(n)
         for n, j in zip(ji, self.model.run(jc) if jc else []):
             out[n].update(implied=bool(j[0]), cex=j[1][0] if j[1] else None, known=bool(j[2]), wf=bool(j[3]))
+        # the same question about what the two trees mean (the predicates the model's constructors build, whose
+        # denotation is the set meaning of and/or/not by the C32 theorems): catches a constructor that builds the wrong set
+        if ji:
+            built = self.model.run([[5, cases[n][0]] for n in ji] + [[5, cases[n][1]] for n in ji])
+            js = self.model.run([[2, built[i], built[len(ji) + i], cases[n][2], cases[n][3]] for i, n in enumerate(ji)])
+            for i, (n, j) in enumerate(zip(ji, js)):
+                out[n].update(implied_src=bool(j[0]), cex_src=j[1][0] if j[1] else None, known_src=bool(j[2]),
+                              P_src=built[i], Q_src=built[len(ji) + i])
         # hash-set iteration order is not observable: a disagreement under the identity order is retried under the others
         dis = [n for n in ji if out[n]["impl"] != out[n]["model"]]
         for k in range(1, ORACLES):
@@ -189,20 +197,131 @@ class Run:
 
 
 def unsound(r):
+    """accepted, but the predicates the implementation built are not in the subset relation"""
     return r["impl"] == 1 and r.get("implied") is False
+
+
+def unsound_src(r):
+    """accepted, but what the two predicate expressions mean is not in the subset relation"""
+    return r["impl"] == 1 and r.get("implied_src") is False
+
+
+def failing(r):
+    """a failing input of the property outside the known class"""
+    return (unsound(r) and not r["known"]) or (unsound_src(r) and not r["known"] and not r.get("known_src"))
 
 
 def describe(r):
     c = r["case"]
     prog = program(c)
-    p = "{I: %s | %s}" % ("Nat" if c[2] else "Int", src_raw(r["P"]))
-    q = "{I: %s | %s}" % ("Nat" if c[3] else "Int", src_raw(r["Q"]))
-    s = "the checker accepts %s where %s is required, but %d satisfies the first and not the second" % (p, q, r["cex"])
+    if unsound(r) and not r["known"]:
+        P, Q, cex = r["P"], r["Q"], r["cex"]
+    else:
+        P, Q, cex = r["P_src"], r["Q_src"], r["cex_src"]
+    p = "{I: %s | %s}" % ("Nat" if c[2] else "Int", src_raw(P))
+    q = "{I: %s | %s}" % ("Nat" if c[3] else "Int", src_raw(Q))
+    s = "the checker accepts %s where %s is required, but %d satisfies the first and not the second" % (p, q, cex)
     if prog:
-        s += "; Erg source: `%s`, e.g. `print! g(%d)`" % (prog, r["cex"])
+        s += "; Erg source: `%s`, e.g. `print! g(%d)`" % (prog, cex)
     else:
         s += "; as source: `g(x: %s): %s = x`" % (p, q)
+    if not (unsound(r) and not r["known"]):
+        s += " (the implementation's constructors built %s and %s for the two predicate expressions)" % (show(r["P"]), show(r["Q"]))
     return s
+
+
+# ------------------------------------------------------------------ escalation when the correspondence breaks
+def tree_atoms(t, path=()):
+    """positions of the comparison atoms of a constructor-call tree: (path, admissible kinds)"""
+    k = t[0]
+    if k in (1, 2, 3, 4, 5, 6):
+        return [(path, (1, 2, 3, 4, 5, 6))] if isinstance(t[1], int) else []
+    if k in (7, 8, 9):
+        return [x for i in range(1, len(t)) for x in tree_atoms(t[i], path + (i,))]
+    if k == 11:
+        return [(path + (1,) + q, (1, 2, 3, 4)) for q in c32.atom_paths(t[1])]
+    return []
+
+
+def desugar(t):
+    """spell > < and the negation of a comparison with the constructors they are built from, so that every
+    comparison with a constant is an atom of its own: I > c is and(I >= c, I != c)"""
+    k = t[0]
+    if k == 5 and isinstance(t[1], int): return [7, [3, t[1]], [2, t[1]]]
+    if k == 6 and isinstance(t[1], int): return [7, [4, t[1]], [2, t[1]]]
+    if k == 9:
+        a = t[1]
+        if a[0] in (1, 2, 3, 4, 5, 6) and isinstance(a[1], int):
+            c = a[1]
+            return {1: [2, c], 2: [1, c], 3: [7, [4, c], [2, c]], 4: [7, [3, c], [2, c]], 5: [4, c], 6: [3, c]}[a[0]]
+        return [9, desugar(a)]
+    if k in (7, 8):
+        return [k, desugar(t[1]), desugar(t[2])]
+    return t
+
+
+def pair_shape(c):
+    def blank(t):
+        t = desugar(t)
+        for path, _ in tree_atoms(t):
+            t = c32.put(t, path, [1, 0])
+        return t
+    return json.dumps([blank(c[0]), blank(c[1]), c[2], c[3]])
+
+
+def reinstantiate(rng, case, limit=20000):
+    """all (above `limit`: a sample of) assignments of constants from ESC_CONSTS and of comparison kinds to the atoms of a pair"""
+    import itertools
+    case = [desugar(case[0]), desugar(case[1]), case[2], case[3]]
+    slots = [(0, p, (1, 2, 3, 4)) for p, ks in tree_atoms(case[0])] + [(1, p, (1, 2, 3, 4)) for p, ks in tree_atoms(case[1])]
+    k = len(slots)
+
+    def build(cs, kinds):
+        sides = [case[0], case[1]]
+        for (n, path, _), c, kd in zip(slots, cs, kinds):
+            sides[n] = c32.put(sides[n], path, [kd, c])
+        sides = [[11, c32.dedup_or(t[1])] if t[0] == 11 else t for t in sides]
+        return [sides[0], sides[1], case[2], case[3]]
+    total = len(c32.ESC_CONSTS) ** k
+    for _, _, ks in slots:
+        total *= len(ks)
+    if total <= limit:
+        for cs in itertools.product(c32.ESC_CONSTS, repeat=k):
+            for kinds in itertools.product(*[ks for _, _, ks in slots]):
+                yield build(cs, kinds)
+    else:
+        orig = [c32.get(case[n], path)[0] for n, path, _ in slots]
+        if len(c32.ESC_CONSTS) ** k <= limit // 2:
+            for cs in itertools.product(c32.ESC_CONSTS, repeat=k):
+                yield build(cs, orig)
+        for _ in range(limit // 2):
+            yield build([rng.choice(c32.ESC_CONSTS) for _ in range(k)], [rng.choice(ks) for _, _, ks in slots])
+
+
+def escalate(ctx, run_, disagreeing):
+    """search for a failing input around a broken correspondence: (1) every pair of depth<=1 trees over constants {0,1};
+    (2) every re-instantiation (constants, comparison kinds) of the disagreeing pairs"""
+    ex = all_cases([0, 1])
+    ctx.cov["escalation_exhaustive"] = "all %d pairs of depth<=1 trees over constants {0,1}" % len(ex)
+    for off in range(0, len(ex), 20000):
+        found = [r for r in run_.decide(ex[off:off + 20000]) if failing(r)]
+        ctx.count("escalation: exhaustive pair", len(ex[off:off + 20000]))
+        if found:
+            return found
+    shapes, picked = set(), []
+    for c in disagreeing:
+        sh = pair_shape(c)
+        if sh not in shapes and tree_atoms(c[0]) + tree_atoms(c[1]):
+            shapes.add(sh)
+            picked.append(c)
+    ctx.cov["escalation_reinstantiated_pairs"] = [[show_tree(c[0]), show_tree(c[1])] for c in picked[:8]]
+    for c in picked[:8]:
+        cases = list(reinstantiate(ctx.rng, c))
+        ctx.count("escalation: re-instantiated pair", len(cases))
+        found = [r for r in run_.decide(cases) if failing(r)]
+        if found:
+            return found
+    return []
 
 
 def shrink_case(run, case, keep):
@@ -250,7 +369,7 @@ def known_entries():
 def run(ctx):
     ctx.cov["rule"] = ("pairs of predicates (constructor-call trees over ==, !=, <=, >=, <, >, and, or, ~, interval forms a..b a<..b a..<b a<..<b, "
                        "raw enum values, constants from small pools plus 32/53-bit boundary values; a third of the pairs are weakenings/strengthenings "
-                       "of one another) with Int/Nat bases from the seeded PRNG; thorough adds every pair of depth<=1 trees over constants {0,1}; "
+                       "of one another) with Int/Nat bases from the seeded PRNG; every accepted pair is judged twice: on the predicates the implementation built and on the meaning of the two predicate expressions; when the correspondence or a theorem breaks the same run escalates to every pair of depth<=1 trees over constants {0,1} and to every re-instantiation of the disagreeing pairs; thorough adds every pair of depth<=1 trees over constants {0,1}; "
                        "non-trivial = distinct pair with a comparison on both sides and syntactically different predicates")
     ctx.cov["trusted_base"] = ["Coq 8.16.1 kernel", "extraction (ExtrOcamlBasic only) + extract/driver.ml",
                                "harness/pred/src/main.rs (Predicate constructors, constructors::{refinement, interval}, Context::subtype_of, ASTLowerer)",
@@ -287,6 +406,7 @@ def run(ctx):
     n_dis = n_bad = n_known = n_panic = n_foreign = n_oracle = 0
     first_dis = None
     bad = []
+    disagreeing = []
     for r in results:
         c = r["case"]
         if r["panic"] is not None:
@@ -306,15 +426,17 @@ def run(ctx):
         ctx.count("accepted" if r["impl"] else ("rejected, implied (incomplete)" if r.get("implied") else "rejected, not implied"))
         if r["oracle"]:
             n_oracle += 1
-        if unsound(r):
-            if r["known"]:
-                n_known += 1
-            else:
-                n_bad += 1
-                bad.append(r)
-        elif r["impl"] != r["model"]:
+        if failing(r):
+            n_bad += 1
+            bad.append(r)
+        elif unsound(r) or unsound_src(r):
+            n_known += 1
+        elif r["impl"] != r["model"] or canon(r["P"]) != canon(r["P_src"]) or canon(r["Q"]) != canon(r["Q_src"]):
             n_dis += 1
+            if len(disagreeing) < 400:
+                disagreeing.append(c)
             first_dis = first_dis or {"case": c, "readable": [show_tree(c[0]), show_tree(c[1])], "sub": show(r["P"]), "sup": show(r["Q"]),
+                                      "model_builds": [show(r["P_src"]), show(r["Q_src"])],
                                       "impl": r["impl"], "model": r["model"], "implied": r.get("implied")}
     ctx.cov["pairs_decided"] = len(results)
     ctx.cov["agree_only_under_another_iteration_order"] = n_oracle
@@ -349,27 +471,34 @@ def run(ctx):
                     lo[1][0], show(lo[1][1]), lo[2][0], show(lo[2][1]), c[2], show(mp), c[3], show(mq))
             elif acc != (lo[0] == 0):
                 why = "`erg check` says %s, in-process lowering reports %d errors" % (acc, lo[0])
-        if acc and r.get("implied") is False and not r["known"]:
-            if r not in bad:
+        if acc and ((r.get("implied") is False and not r["known"]) or
+                    (r.get("implied_src") is False and not r["known"] and not r.get("known_src"))):
+            r = dict(r, impl=1)
+            if r["case"] not in [b["case"] for b in bad]:
                 n_bad += 1
                 bad.append(r)
         elif why or acc != bool(r["impl"]):
             n_e2e_dis += 1
+            disagreeing.append(c)
             first_dis = first_dis or {"program": prog, "cli_accepts": acc, "subtype_of": r["impl"], "model": r["model"], "detail": why, "cli_output": msg}
     ctx.cov["e2e_programs"] = len(sel)
 
     # ---- verdict
+    if not bad and (n_dis or n_e2e_dis or not proof.ok):
+        # the tie is broken but no generated pair fails the judge: look harder before saying so
+        bad = escalate(ctx, run_, disagreeing)
     for r in bad[:3]:
-        small = shrink_case(run_, r["case"], lambda x: unsound(x) and not x["known"])
+        small = shrink_case(run_, r["case"], failing)
         rr = run_.decide([small])[0]
-        if not (unsound(rr) and not rr["known"]):
+        if not failing(rr):
             rr = r
         ctx.violation("failing-input", describe(rr),
                       case={"case": rr["case"], "sub": "{I: %s | %s}" % ("Nat" if rr["case"][2] else "Int", show(rr["P"])),
                             "sup": "{I: %s | %s}" % ("Nat" if rr["case"][3] else "Int", show(rr["Q"])), "program": program(rr["case"]),
                             "encoding": "case = (tree_sub tree_sup base_sub base_sup); base 0 Int 1 Nat; trees as in C32 plus 13 = interval (op a b)"},
                       impl={"subtype_of": rr["impl"]}, model={"sub_refine": rr["model"]},
-                      judge={"implied": rr["implied"], "counterexample": rr["cex"]})
+                      judge={"implied": rr["implied"], "counterexample": rr["cex"],
+                             "implied_by_meaning_of_the_expressions": rr.get("implied_src"), "counterexample_by_meaning": rr.get("cex_src")})
     if not bad and (n_dis or n_e2e_dis or n_foreign or n_panic or not proof.ok):
         what = []
         if not proof.ok:
@@ -414,6 +543,7 @@ def replay(ctx, path):
     if prog:
         acc, msg = run_.cli([prog])[0]
         print("erg check `%s`: %s" % (prog, "accepted" if acc else "rejected"))
-    if unsound(x) and not x["known"]:
+    print("judge on the meaning of the two expressions: implied=%s counterexample=%s" % (x.get("implied_src"), x.get("cex_src")))
+    if failing(x):
         ctx.violation("failing-input", describe(x), case=r["case"], impl={"subtype_of": x["impl"]}, model={"sub_refine": x["model"]},
                       judge={"implied": x["implied"], "counterexample": x["cex"]})
